@@ -68,7 +68,7 @@ def inject_faults(rng, ops, kinds, pool):
     for _ in range(n):
         k = rng.choice(kinds)
         cause = rng.choice(["dup", "comment", "comment_replace", "label_first", "label_last", "format", "wrong_object",
-                            "absent_remove", "absent_replace", "bad_set"])
+                            "absent_remove", "absent_replace", "bad_set", "format_int", "bad_date"])
         spec = rng.choice(pool[k])
         if cause == "dup":
             op = [("add", spec, None), ("add", rng.choice(pool[k]), "again")]
@@ -87,6 +87,13 @@ def inject_faults(rng, ops, kinds, pool):
             s = copy.deepcopy(rng.choice(pool[kk])) if kk in pool else container.small_block(kk, rng, 1)
             s.bad = "format"
             op = [(rng.choice(["add", "replace"]), s, None)]
+        elif cause in ("format_int", "bad_date"):
+            s = copy.deepcopy(spec)
+            s.bad = cause
+            # on a type that is present (replace / set) and on one that is absent (add)
+            pre = [("add", spec, None)] if rng.random() < 0.6 else []
+            op = pre + [(rng.choice(["replace", "add"] + (["set"] if k in SETTER else [])), s, None)][:2]
+            op = [o if o[0] != "set" else ("set", o[1]) for o in op]
         elif cause == "wrong_object":
             s = copy.deepcopy(spec)
             s.bad = "wrong_object"
@@ -388,8 +395,8 @@ def expected_rc(c, i):
     """the model's outcome, with the calls the model cannot express (wrong object) patched in"""
     flat = [o for ctx in c.contexts for o in ctx]
     op = flat[i]
-    if op[0] in ("add", "replace", "set") and op[1].bad == "wrong_object":
-        return None         # any exception, state unchanged
+    if op[0] in ("add", "replace", "set") and op[1].bad in ("wrong_object", "format_int", "bad_date"):
+        return None         # any exception (which one depends on what the code touches first), state unchanged
     return c.msteps[i]["rc"]
 
 
